@@ -5,7 +5,8 @@ eval_expression / eval_prefix_op / eval_statement a hand-built node  (op leaf0 l
 literal leaves carry arbitrary int64 / bool payloads and compares the result with the spec functions of
 contracts/spec_int.h - the SAME functions the VM handlers are proved against (C02.vm.<OP>), so agreement of the two
 engines on these operators follows by transitivity wherever both obligations hold.
-ids: C03.int.<OP>[.value8|.zero|.minneg1]   C03.bool.<EQ|NE>   C03.sc.int.<AND|OR>   C03.assert
+ids: C03.int.<OP>[.value8|.zero|.minneg1]   C03.bool.<EQ|NE>   C03.sc.int.<AND|OR>   C03.assert[.nowrap]
+     C03.float.<OP>[.m8|.m8e16|.m4e4|.zero]   C03.mixed.<if|fi>.<CMP>   C03.slice.<dyn|array>.int[.wrap]
 """
 import os, sys
 sys.path.insert(0, os.path.dirname(os.path.abspath(__file__)))
@@ -34,6 +35,14 @@ META = {
         "measured under C02): full domain = type + fault-freedom + algebraic corner cases; the value itself is a bounded obligation B(8-bit operands)",
         "C03.assert: fewer than INT_MAX failed assertions were counted before this one; the excluded case is its own obligation C03.assert.nowrap "
         "(the int counter's increment is a signed overflow there; at -O0 it wraps to INT_MIN and run_shadow_tests' `> 0` test reports the test as passed)",
+        "C03.float.* / C03.mixed.*: the spec is the C double operation itself (what the generated C performs), computed in the harness on operand "
+        "values obtained through the same literal-leaf path; arithmetic results compared as bit patterns; CBMC's IEEE-754 model with round-to-nearest "
+        "on both sides.  Full-domain +,-,*,/ need two float circuits compared (ADD 216 s, SUB 167 s minisat; DIV 194 s z3; MUL > 300 s on both): "
+        "thorough tier; quick tier = B(8 significant mantissa bits; for * additionally finite normal operands with exponent in [-16,16]; for / 4 bits and [-4,4]). "
+        "Comparisons, ==, != and unary minus are full-domain (NaN, +-0, inf, subnormals).  Mixed int/float ARITHMETIC is rejected by the type checker and has no obligation",
+        "C03.slice.*: spec = the documented (start, length) semantics, saturating (docs/STDLIB.md; the same formula is the VM's spec in C02.vm.ARR_SLICE and "
+        "what the emitted nl_array_slice computes since fix 5597440); the .wrap obligations cover lengths reaching past INT64_MAX; int elements only; B(source capacity <= 5); gc_alloc is a stub = malloc; "
+        "the result's elements are checked through one ghost index in_k",
         "exit/abort/__assert_fail are path ends (ghost flag + assume(false)); fprintf is CBMC's built-in model",
         "environment pointer: arbitrary, never dereferenced on the proved paths (pointer checks on)",
     ],
@@ -106,6 +115,13 @@ def op_obligations(prop="C03"):
 ARITH_BACKENDS = {"ADD": ["minisat"], "SUB": ["minisat"], "MUL": ["minisat", "z3"], "DIV": ["z3"]}
 
 
+def _no_witness(obs):
+    # replay/replay_evalops.c has no float / slice mode: the findings of these obligations are documented by the programs in findings/
+    for o in obs:
+        o["witness"] = None
+    return obs
+
+
 def float_obligations(prop="C03"):
     """FLOAT x FLOAT operators and the mixed INT/FLOAT comparisons the type checker admits (with a diagnostic); mixed
     ARITHMETIC is rejected by the type checker ("Arithmetic expects numeric types ...": Type checking failed) and has no obligation."""
@@ -129,6 +145,11 @@ def float_obligations(prop="C03"):
                 b["id"] = "%s.float.%s.m8e16" % (prop, op)
                 b["defines"]["VERIF_FEXP"] = 16
                 b["strength"] = "B(both operands finite normal, unbiased exponent in [-16,16], top 8 mantissa bits arbitrary, low 44 zero)"
+            if op == "DIV":
+                # the divider does not close on SAT even at 8 mantissa bits (> 300 s): 4 bits, exponents in [-4,4]: 10 s
+                b["id"] = "%s.float.DIV.m4e4" % prop
+                b["defines"].update({"VERIF_FMASK": 4, "VERIF_FEXP": 4})
+                b["strength"] = "B(both operands finite normal, unbiased exponent in [-4,4], top 4 mantissa bits arbitrary, low 48 zero)"
             obs.append(b)
         obs.append(o)
         if op == "DIV":
@@ -150,11 +171,9 @@ def slice_obligations(prop="C03"):
                      functions=["builtin_array_slice[%s]" % ("VAL_DYN_ARRAY" if ak == 2 else "VAL_ARRAY")], unwind=8,
                      must_have=[r"C03\.slice result length", r"COVER"], witness=None,
                      strength="B(source capacity <= 5 elements; start, length: full int64%s)" % (", wrapping part of the plane" if sl == 2 else ", non-wrapping part of the plane"))
-            if sl == 2:
-                o["checks"] = NO_SOVF       # `start + length` wraps there (the generated C is built with -fwrapv; nanoc itself at -O0)
             obs.append(o)
     return obs
 
 
 def obligations(repo):
-    return op_obligations() + float_obligations() + slice_obligations()
+    return op_obligations() + _no_witness(float_obligations()) + slice_obligations()
